@@ -146,6 +146,25 @@ def mk_scenario(sid, shape, mode, pess, preload=True, backend="unistore", **kw):
     return sc
 
 
+def with_fallbacks(base, every=3):
+    """adds a last component `fb` to every tuple of `base` (mode = 2nd component) and, for every `every`-th async-commit /
+    1PC entry, a twin with fb = True: that twin runs with AsyncCommit.SafeWindow = 0, so the store finds the min-commit
+    ts beyond the request's max-commit ts, declines async commit and 1PC on every prewrite and the client falls back
+    to 2PC. The twin is probed on its own (its request count differs)."""
+    out, n = [], 0
+    for b in base:
+        out.append(tuple(b) + (False,))
+        if b[1] in ("async", "1pc", "async1pc"):
+            n += 1
+            if n % every == 0:
+                out.append(tuple(b) + (True,))
+    return out
+
+
+def fbkw(fb):
+    return {"safe_window_ms": 0} if fb else {}
+
+
 # ------------------------------------------------------------------ audit (boolean form of C02 (i)-(iv) / C03)
 def audit_atomic(sc, r):
     """returns list of violated conclusions (strings); empty = holds. Uses the post-recovery MVCC dump."""
